@@ -194,7 +194,9 @@ func addrAddImm(a model.Addr, imm int32) model.Addr {
 	if imm >= 0 {
 		return a + model.Addr(imm)
 	} else {
-		return a - model.Addr(-imm)
+		// Negation is done in 64 bits as -imm overflows for the lowest
+		// int32 value.
+		return a - model.Addr(-int64(imm))
 	}
 }
 
